@@ -9,6 +9,7 @@ import (
 	"path/filepath"
 	"strings"
 	"sync/atomic"
+	"syscall"
 
 	"github.com/goreleaser/nfpm/v2"
 
@@ -321,7 +322,7 @@ func c06(run *ev.Run, tier string) {
 		}
 		for _, rf := range refs {
 			hidden := rf.path + ".verif-hidden"
-			modes := []string{"removed"}
+			modes := []string{"removed", "replaced-by-unix-socket"}
 			if rf.asDir {
 				modes = append(modes, "replaced-by-directory", "replaced-by-dangling-symlink")
 			}
@@ -335,6 +336,13 @@ func c06(run *ev.Run, tier string) {
 				}
 				if mode == "replaced-by-dangling-symlink" {
 					_ = os.Symlink(rf.path+".nowhere", rf.path)
+				}
+				if mode == "replaced-by-unix-socket" {
+					// a socket has no bytes to ship: never a usable source
+					if err := syscall.Mknod(rf.path, syscall.S_IFSOCK|0o644, 0); err != nil {
+						_ = os.Rename(hidden, rf.path)
+						continue
+					}
 				}
 				for _, f := range rf.formats {
 					atomic.AddInt64(&srcFaults, 1)
